@@ -171,7 +171,13 @@ func genRules(t *rapid.T, tier string) (*World, any) {
 	}
 	p.FlipAt = drawInt(t, 0, 1000, "flipat")
 	p.FlipWith = pick(t, []string{"#", "Z", "~", "0"}, "flipwith")
-	p.EditMode = pick(t, []string{"flip", "flip", "drop-last", "append", "empty"}, "editmode")
+	p.EditMode = pick(t, []string{"flip", "flip", "drop-last", "append", "empty", "case"}, "editmode")
+	if chance(t, 8, "origcopy") {
+		// a left-over copy next to the rules file: update and compare must agree on whether the rule can be addressed at all
+		w.Put(p.RulesPath+pick(t, []string{".orig", ".bak", "~"}, "origext"), rf.Content)
+		feat["leftover-copy-of-rules-file"] = true
+		p.Features = sortedKeys(feat)
+	}
 	p.Features = sortedKeys(feat)
 	return w, p
 }
@@ -335,6 +341,26 @@ func evalC12(sc *Scenario, sim *Sim) ([]Violation, bool, string) {
 			case "empty":
 				edited = append(append([]byte{}, after1[:tg.Start]...), after1[end:]...)
 				pos = tg.Start
+			case "case":
+				// change the case of one letter (a stored \x5C instead of \x5c is a different operand)
+				found := false
+				for k := 0; k < len(g.Stdout); k++ {
+					q := tg.Start + (p.FlipAt+k)%len(g.Stdout)
+					c := edited[q]
+					if c >= 'a' && c <= 'z' {
+						edited[q] = c - 32
+						pos, found = q, true
+						break
+					}
+					if c >= 'A' && c <= 'Z' {
+						edited[q] = c + 32
+						pos, found = q, true
+						break
+					}
+				}
+				if !found {
+					continue
+				}
 			default:
 				// keep the line structure intact: never touch or create quote / backslash / newline bytes
 				if edited[pos] == '"' || edited[pos] == '\\' || edited[pos] == '\n' || edited[pos] == '\r' {
@@ -396,7 +422,7 @@ func init() {
 	})
 	register(&Property{
 		ID: "C12", Level: "exploration",
-		Rule: rule + "Histories: update T -> compare T (must print 'has not changed', exit 0; `-o github compare --all` exit 0); update T -> update T (byte no-op); stored span = generate's stdout; update T -> edit the stored span (flip one byte, drop the last byte, append a byte, empty it) -> compare (text single rule: exit != 0 and 'has changed!'; -o github single and --all: exit != 0; text --all prints 'has changed!'). Non-trivial = update succeeded; distinct = distinct (world, flipped byte).",
+		Rule: rule + "Histories: update T -> compare T (must print 'has not changed', exit 0; `-o github compare --all` exit 0); update T -> update T (byte no-op); stored span = generate's stdout; update T -> edit the stored span (flip one byte, drop the last byte, append a byte, empty it, change the case of one letter) -> compare (text single rule: exit != 0 and 'has changed!'; -o github single and --all: exit != 0; text --all prints 'has changed!'). Non-trivial = update succeeded; distinct = distinct (world, flipped byte).",
 		Gen:  genRules, Eval: evalC12,
 		QuickChecks: 300, ThoroughChecks: 6000, Timeout: 20 * time.Second,
 		Assumptions: []string{"the edited byte is never a quote, backslash or line terminator, so the line keeps the CRS layout", "for the --all variants only the target's assembly file is left in place"},
